@@ -355,6 +355,14 @@ impl Optimizer {
                         let refs_left = pred_cols.iter().any(|&c| c < left_cols);
                         let refs_right = pred_cols.iter().any(|&c| c >= left_cols);
 
+                        // After the left block the join output holds only the right
+                        // side's NON-KEY columns, so a right-side index is mapped through
+                        // that column list (not just shifted by the left width).
+                        let right_cols = Self::right_output_columns(&right, &right_keys);
+                        let right_in_range = pred_cols
+                            .iter()
+                            .all(|&c| c >= left_cols && c - left_cols < right_cols.len());
+
                         if refs_left && !refs_right {
                             // Predicate only references left side - push down to left
                             IRNode::Join {
@@ -367,11 +375,13 @@ impl Optimizer {
                                 right_keys,
                                 output_schema,
                             }
-                        } else if refs_right && !refs_left {
-                            // Predicate only references right side - push down to right
-                            // Need to adjust column indices
-                            let adjusted_predicate =
-                                Self::adjust_predicate_columns(&predicate, -(left_cols as i32));
+                        } else if refs_right && !refs_left && right_in_range {
+                            // Predicate only references right side - push down to right,
+                            // mapping each index through the right output column list
+                            let adjusted_predicate = Self::remap_predicate_columns(
+                                &predicate,
+                                &|col: usize| right_cols[col - left_cols],
+                            );
                             IRNode::Join {
                                 left,
                                 right: Box::new(IRNode::Filter {
@@ -521,10 +531,27 @@ impl Optimizer {
         }
     }
 
-    /// Adjust column indices in a predicate by an offset
-    fn adjust_predicate_columns(predicate: &Predicate, offset: i32) -> Predicate {
-        let adjust = |col: usize| -> usize { ((col as i32) + offset) as usize };
+    /// Columns of the right join input that appear in the join output (after the
+    /// left columns), in order: every column that is not a right join key.
+    fn right_output_columns(right: &IRNode, right_keys: &[usize]) -> Vec<usize> {
+        (0..right.output_schema().len())
+            .filter(|c| !right_keys.contains(c))
+            .collect()
+    }
 
+    /// Adjust column indices in a predicate by an offset
+    #[cfg_attr(not(test), allow(dead_code))]
+    fn adjust_predicate_columns(predicate: &Predicate, offset: i32) -> Predicate {
+        Self::remap_predicate_columns(predicate, &|col: usize| -> usize {
+            ((col as i32) + offset) as usize
+        })
+    }
+
+    /// Rewrite every column index of a predicate through `adjust`
+    fn remap_predicate_columns(
+        predicate: &Predicate,
+        adjust: &dyn Fn(usize) -> usize,
+    ) -> Predicate {
         match predicate {
             Predicate::ColumnEqConst(col, val) => Predicate::ColumnEqConst(adjust(*col), *val),
             Predicate::ColumnNeConst(col, val) => Predicate::ColumnNeConst(adjust(*col), *val),
@@ -570,12 +597,12 @@ impl Optimizer {
                 Predicate::ArithCompareConst(expr.clone(), op.clone(), *val, new_var_map)
             }
             Predicate::And(left, right) => Predicate::And(
-                Box::new(Self::adjust_predicate_columns(left, offset)),
-                Box::new(Self::adjust_predicate_columns(right, offset)),
+                Box::new(Self::remap_predicate_columns(left, adjust)),
+                Box::new(Self::remap_predicate_columns(right, adjust)),
             ),
             Predicate::Or(left, right) => Predicate::Or(
-                Box::new(Self::adjust_predicate_columns(left, offset)),
-                Box::new(Self::adjust_predicate_columns(right, offset)),
+                Box::new(Self::remap_predicate_columns(left, adjust)),
+                Box::new(Self::remap_predicate_columns(right, adjust)),
             ),
             Predicate::True => Predicate::True,
             Predicate::False => Predicate::False,
